@@ -20,12 +20,22 @@ Theorem c18_status_partial : forall c m s, good c ->
 Proof. exact run_good. Qed.
 Print Assumptions c18_status_partial.
 
+(* THE THEOREM FOR THE CURRENT TREE (fix: 0fce10d main uses the parse result, f4f7f0c std::exception / ... handlers in
+   Interpret::interp, fe50f31 pending pipe input reported): the front end regenerated from the source is good, hence on
+   every script and in both modes no abort, problem <-> non-zero status, diagnostic <-> problem.
+   (Breaks, as it must, if one of these fixes is reverted.)  Still PARTIAL: see the header. *)
+Theorem c18_status_current_partial : forall m s,
+  let o := run gen_cfg m s in
+  ending_of o <> Abort /\ (problem o = true <-> ending_of o = Exit true) /\ (diag o = true <-> problem o = true).
+Proof. intros m s. exact (run_good gen_cfg m s gen_cfg_good). Qed.
+Print Assumptions c18_status_current_partial.
+
 (* the repaired front end of proposed_fixes/C18_*.diff is such a front end *)
 Theorem c18_fixed_front_end_good : good fixed_cfg.
 Proof. exact fixed_cfg_good. Qed.
 Print Assumptions c18_fixed_front_end_good.
 
-(* Refutation on the faithful model (DESIGN.md section 9 item 2): while main drops the result of interpFile
+(* History (vacuous since 0fce10d): refutation on the faithful model (DESIGN.md section 9 item 2): while main drops the result of interpFile
    and yyerror only prints, a file with a syntax error prints a diagnostic and exits with status 0. *)
 Theorem c18_status_refuted :
   main_checks_parse gen_cfg || yyerror_clears gen_cfg = false ->
@@ -34,7 +44,7 @@ Theorem c18_status_refuted :
 Proof. exact (status_refuted_lemma gen_cfg). Qed.
 Print Assumptions c18_status_refuted.
 
-(* Refutation: standard input that ends inside a command is dropped without a word, status 0 *)
+(* History (vacuous since fe50f31): standard input that ends inside a command is dropped without a word, status 0 *)
 Theorem c18_pending_input_refuted :
   pipe_reports_pending gen_cfg = false ->
   exists s, let o := run gen_cfg MPipe s in
@@ -47,7 +57,7 @@ Theorem uncaught_classes : forall c s e, caught c s e = false <-> In e (escaping
 Proof. exact uncaught_classes_lemma. Qed.
 Print Assumptions uncaught_classes.
 
-(* Refutation: any escaping class aborts the run (std::terminate) as long as main has no try block *)
+(* History (no class escapes since f4f7f0c): any escaping class aborts the run (std::terminate) as long as main has no try block *)
 Theorem c18_abort_refuted : forall s e,
   caught gen_cfg s e = false -> main_catches gen_cfg = false ->
   exists sc m, ending_of (run gen_cfg m sc) = Abort.
